@@ -16,7 +16,7 @@ conditions are decidable and syntactic (`existsSide`, `forAllSide` below; `Expr.
   (`KeyError`); (E2) every other variable of `φ` is bound by every true cell of the conjuncts to the left — so a
   root-level `exists` must be closed; just outside: F-C01-5 (the de-duplication on the value of `y` runs across the
   free variables' assignments);
-* `for_all(y, φ)`: (A1) every TRUE result cell of `φ` binds every node of `φ`; just outside: F-C01-11. This is
+* `for_all(y, φ)`: (A1) every TRUE result cell of `φ` binds every VARIABLE of `φ`; just outside: F-C01-11. This is
   strictly weaker than the trigger `Expr.forAllCompound` ("`φ` contains and_/or_"): `for_all(y, and_(a, b))` with atoms
   `a`, `b` is INSIDE (test below), its negation is outside. (A2) F-C01-6 (empty universal domain) needs no hypothesis:
   the theorems are conditional on the evaluation returning, and `C01_forall_empty_error` shows it never does then;
@@ -102,9 +102,9 @@ def existsSide (ls : List SExpr) (y : VarId) (φ : Expr) : Bool :=
     φ.vars.all fun v => v == y || (chainKeys ls).contains (.var v)
 
 /-- side condition of `for_all(y, φ)` after the conjuncts `ls`: (A0) `y` is not used by the conjuncts; (A1) every TRUE
-result cell of `φ` binds every node of `φ` -/
+result cell of `φ` binds every VARIABLE of `φ` (a literal node may stay unbound: the re-check reads it afresh) -/
 def forAllSide (ls : List SExpr) (y : VarId) (φ : Expr) : Bool :=
-  !(chainVars ls).contains y && φ.nodes.all fun k => (Expr.bK true φ).contains k
+  !(chainVars ls).contains y && φ.vars.all fun v => (Expr.bK true φ).contains (.var v)
 
 theorem ql_exists {ls : List SExpr} {y : VarId} {φ : Expr} (hF : φ.Fc = true) (h : existsSide ls y φ = true) :
     (Expr.exists_ y φ).Ql ([] ++ chainVars ls) ([] ++ chainKeys ls) = true := by
@@ -170,7 +170,7 @@ theorem build_not_forAll {y : VarId} {φ : SExpr} (hφ : φ.F1 = true) :
 
 /-- **C01_not_exists_sound_complete_partial.** `not_(exists(y, φ))` as the last conjunct: the engine evaluates
 `for_all(y, not φ)` (`build_not_exists`; `satE_build` gives the semantic side: the first-order reading is unchanged), so
-the side condition is `forAllSide` of `not φ` — every FALSE result cell of `φ` binds every node of `φ`. The returned
+the side condition is `forAllSide` of `not φ` — every FALSE result cell of `φ` binds every variable of `φ`. The returned
 rows are exactly the assignments satisfying `l₁ ∧ … ∧ ¬∃ y ∈ dom y, φ`. -/
 theorem C01_not_exists_sound_complete_partial (w : World) (q : SQuery) (ls : List SExpr) (y : VarId) (φ : SExpr)
     (hc : q.cond = some (chainS ls (.not (.exists_ y φ))))
@@ -206,6 +206,20 @@ theorem C01_not_forall_sound_complete_partial (w : World) (q : SQuery) (ls : Lis
       rw [build_not_forAll hφ]
       exact ql_exists (by simp only [Expr.Fc]; exact (build_F1 hφ).1) hside))
     hsel hms hsq hnd hne hlit h1 h2
+
+/-- **C01_exists_no_keyError** (F-C01-7, unbounded). Under side condition (E1) — every result cell of `φ`, true or false,
+binds `y` — `exists(y, φ)` never raises by itself: whatever error it returns is an error of evaluating `φ` (so never the
+`KeyError` of the quantifier). Without (E1): `C01_quant_need_E1`. -/
+theorem C01_exists_no_keyError (w : World) (y : VarId) (φ : Expr) (env : Env) (hF : φ.Fc = true)
+    (hE1 : Key.var y ∈ Expr.bK true φ ∧ Key.var y ∈ Expr.bK false φ) (err : Err)
+    (h : eval w (.exists_ y φ) env = .error err) : eval w φ env = .error err :=
+  exists_error_from_body w y φ env hF hE1 err h
+
+/-- non-vacuity (test): the body `x.nope > y.a` meets (E1); the attribute does not exist, the quantifier raises — the
+body's `AttributeError`, as the theorem says -/
+example : eval cex7W (.cmp .gt (.attr (.var 0) "nope") (cexAttrA 3)) [] = .error .attrError :=
+  C01_exists_no_keyError cex7W 3 (.cmp .gt (.attr (.var 0) "nope") (cexAttrA 3)) [] (by decide) (by decide) _
+    (by decide)
 
 /-- **C01_forall_empty_error** (F-C01-6, unbounded). `for_all(y, φ)` over an EMPTY domain for `y` (with `y` not yet
 bound) raises `TypeError` whatever `φ` is — never "vacuously true"; so no query whose evaluation returns has this
@@ -262,6 +276,19 @@ def qnvAc : SQuery := ⟨[.var 0], some (chainS [qnvL] (.forAll 4 qnvAcφ))⟩
 example : (∀ r, r ∈ [[Val.obj 1], [.obj 2]] ↔ r ∈ [[Val.obj 1], [.obj 2]]) ∧
     (build (chainS [qnvL] (.forAll 4 qnvAcφ))).forAllCompound = true :=
   ⟨C01_forall_sound_complete_partial qnvW qnvAc [qnvL] 4 qnvAcφ rfl (by decide) (by decide)
+    (by decide) (by decide) (by decide) (by decide) (domsNodup_of_B (by decide)) (by decide) (by decide)
+    (by decide) (by decide), by decide⟩
+
+/-- a NEGATED conjunction inside the fragment: `for_all(u, not_(and_(x.a < u.a, u.a >= 1)))` — a true cell of the body is
+a false cell of `x.a < u.a` passed through un-extended: it binds both VARIABLES but not the literal node of `u.a >= 1`,
+which the re-check under the next `u` then reads afresh. `x ∈ {P1, P2}`. (Compare `C01_quant_need_A1`, where the
+un-evaluated conjunct holds a VARIABLE.) -/
+def qnvAnφ : SExpr := .not (.and (.cmp .lt (cexAttrA 0) (cexAttrA 4)) (.cmp .ge (cexAttrA 4) (.lit 102 (.int 1))))
+def qnvAn : SQuery := ⟨[.var 0], some (chainS [] (.forAll 4 qnvAnφ))⟩
+
+example : (∀ r, r ∈ [[Val.obj 1], [.obj 2]] ↔ r ∈ [[Val.obj 1], [.obj 2]]) ∧
+    ((build qnvAnφ).nodes.all fun k => (Expr.bK true (build qnvAnφ)).contains k) = false :=
+  ⟨C01_forall_sound_complete_partial qnvW qnvAn [] 4 qnvAnφ rfl (by decide) (by decide)
     (by decide) (by decide) (by decide) (by decide) (domsNodup_of_B (by decide)) (by decide) (by decide)
     (by decide) (by decide), by decide⟩
 
